@@ -218,12 +218,15 @@ def _cps(s):
     return "e" if s == "" else ",".join(str(ord(c)) for c in s)
 
 
-def enc(x):
-    """canonical one-token-per-field encoding of an rdflib term (also the driver's term syntax)"""
+def enc(x, fold_lang=False):
+    """canonical one-token-per-field encoding of an rdflib term (also the driver's term syntax);
+    fold_lang: language tags are case-insensitive — text readers may change their case"""
     if x is None:
         return "none"
     if isinstance(x, Literal):
         dt, lang = x.datatype, x.language
+        if fold_lang and lang is not None:
+            lang = lang.lower()
         return "L %s %s %s" % (_cps(str(x)), "-" if dt is None else _cps(str(dt)), "-" if lang is None else _cps(lang))
     k = CLS_REV.get(type(x))
     if k is None:
@@ -279,7 +282,7 @@ def _try(f):
         return e
 
 
-INVALID = T._invalid_uri_chars
+INVALID = '<>" {}|\\^`'   # the characters an IRI may not contain (spec side of the n3() guard; not read from rdflib)
 
 
 def _absolute(s):
@@ -517,7 +520,7 @@ def run_impl(case):
 
         check("from_n3", _try(lambda: from_n3(text)))
         raw = _raw_from_n3(text)
-        if k == "lit" and not isinstance(raw, Exception) and not _same(raw, t, exact_lang=True) and not _infnan(t):
+        if k == "lit" and not isinstance(raw, Exception) and not _same(raw, t, exact_lang=False) and not _infnan(t):
             # with normalisation switched off the reader must give back exactly the term
             V("n3-from_n3", f"{t!r}: n3() text {text!r} read by from_n3 with NORMALIZE_LITERALS=False gives {raw!r}", i)
         if k == "lit" or (k == "iri" and _absolute(s) and not any(ord(c) <= 0x20 for c in s)):
@@ -617,14 +620,14 @@ def _impl_obs(st, case, ts):
         # rdflib reads the model's text as it reads its own text (both with normalisation off); that
         # its own text gives back the term is the `n3-from_n3` oracle above
         raw = _raw_from_n3(text)
-        return "wr " + (_exc_name(raw) if isinstance(raw, Exception) else enc(raw))
+        return "wr " + (_exc_name(raw) if isinstance(raw, Exception) else enc(raw, True))
     if kind == "rd":
         t = ts[st[1]]
         text = _try(lambda: t.n3())
         if isinstance(text, Exception) or not _text_in_scope(t) or not _scalar(text):
             return "rd -"
         raw = _raw_from_n3(text)
-        return "rd " + (_exc_name(raw) if isinstance(raw, Exception) else enc(raw))
+        return "rd " + (_exc_name(raw) if isinstance(raw, Exception) else enc(raw, True))
     if kind == "rt":
         t = ts[st[1]]
         p = _try(lambda: pickle.loads(pickle.dumps(t)))
@@ -692,14 +695,24 @@ def select_model_obs(case, out):
                 res.append("wr -")
             else:
                 r = _raw_from_n3(_uncps(o))
-                res.append("wr " + (_exc_name(r) if isinstance(r, Exception) else enc(r)))
+                res.append("wr " + (_exc_name(r) if isinstance(r, Exception) else enc(r, True)))
                 if os.environ.get("VERIF_C07_TEXT") and _uncps(o) != t.n3():
                     print("text differs:", repr(_uncps(o)), repr(t.n3()), file=sys.stderr)
-        elif kind in ("rd", "rt", "mk"):
+        elif kind == "rd":
+            res.append("rd " + ("-" if o == "bad-op" and _skipped(st, case, ts) else _fold_lang(o)))
+        elif kind in ("rt", "mk"):
             res.append(kind + " " + ("-" if o == "bad-op" and _skipped(st, case, ts) else o))
         elif kind == "sort":
             res.append("sort " + o if o != "bad-op" else "sort ")
     return res
+
+
+def _fold_lang(o):
+    """lower-case the language field of a driver-printed literal"""
+    w = o.split(" ")
+    if len(w) == 4 and w[0] == "L" and w[3] not in ("-", "e"):
+        w[3] = ",".join(str(ord(chr(int(x)).lower())) if int(x) < 128 else x for x in w[3].split(","))
+    return " ".join(w)
 
 
 def _skipped(st, case, ts):
